@@ -281,8 +281,11 @@ def r4_converter(R) -> None:
             else:
                 okc = okc and call_ok
                 okd = False
+    # `converter(s) or <something>` read as the inserted text: a falsy output is positively replaced, whatever else was rewritten
+    replaced = any(isinstance(leaf, ast.BoolOp) and isinstance(leaf.op, ast.Or) and text(leaf.values[0]) == f'converter({v})' and ('converter is None', False) in {(text(a_), tr) for (a_, tr) in facts}
+                   for (facts, leaf) in leaves(canon(elt)))
     R.check(okc, q, 'converter-once:' + shown[:60], 'the converter is applied once per selected symbol, in symbol order, and its output inserted as it is',
-            f'{shown} (for {v} in {text(g.iter)[:30]}): a converter output such as the empty string is replaced', where=where)
+            f'{shown} (for {v} in {text(g.iter)[:30]}): a converter output such as the empty string is replaced', where=where, decided=replaced)
     if okc:
         R.check(okd and dflt_name is not None, q, 'default-converter', 'the default converter is used exactly when none is given',
                 f'the function applied is `{shown}`, expected `<default> if converter is None else converter`', where=where)
